@@ -112,6 +112,11 @@ def modes_shard(args):
         else:
             v = clean(gen_value(rng, kind))
         src = jval(v) if not isinstance(v, float) else common.jnum(v)
+        if rng.random() < 0.4 and not isinstance(v, float):
+            # the same value written with hidden / forced-visible / inherited / computed / removed fields, comprehensions
+            from checks.c05 import fancy
+            src = fancy(v, rng)
+        preexisting = rng.random() < 0.5    # output targets that already exist (longer / shorter / equal junk)
         tmp = tempfile.mkdtemp(dir=common.SCRATCH)
         try:
             rc0, out0, err0 = plain_manifest(src, tmp)
@@ -155,6 +160,12 @@ def modes_shard(args):
                 mdir = os.path.join(tmp, "multi")
                 os.mkdir(mdir)
                 flags += [rng.choice(["-m", "--multi"]), mdir]
+                if preexisting and isinstance(v, dict):
+                    for k_ in list(v.keys())[: rng.randint(0, len(v))]:
+                        with open(os.path.join(mdir, k_), "wb") as f:
+                            f.write(b"OLD-CONTENT " * rng.choice([0, 1, 50, 5000]))
+                    with open(os.path.join(mdir, "zz_stranger.keep"), "wb") as f:
+                        f.write(b"not ours")
                 if sub == "S":
                     flags += ["-S"]
                 elif sub == "y":
@@ -165,6 +176,25 @@ def modes_shard(args):
             if use_o:
                 ofile = os.path.join(tmp, "out.txt")
                 flags += [rng.choice(["-o", "--output-file"]), ofile]
+                if preexisting:
+                    old_content = b"OLD-CONTENT " * rng.choice([0, 1, 50, 5000])
+                    with open(ofile, "wb") as f:
+                        f.write(old_content)
+            # the value can also reach the output modes as the result of a top-level function (called with the TLAs)
+            root = rng.choice(["value", "value", "fn_default", "fn_tla_code", "fn_noargs", "fn_tla_str"])
+            src_plain = src
+            if root == "fn_default":
+                src = "function(p=null, q=1) " + src_plain
+            elif root == "fn_noargs":
+                src = "function() " + src_plain
+            elif root == "fn_tla_code":
+                flags += ["--tla-code", "v=" + src_plain]
+                src = "function(v, unused=error 'unused default') v"
+            elif root == "fn_tla_str" and isinstance(v, str) and "\x00" not in v:
+                flags += ["--tla-str", "v=" + v]
+                src = "function(v) v"
+            else:
+                root = "value"
             stdin = None
             if how == "exec" and not src.startswith("-"):
                 argv = flags + ["-e", src]
@@ -262,7 +292,12 @@ def modes_shard(args):
                                     bad = k
                         except OSError:
                             bad = k
-                    if bad is not None or sorted(os.listdir(mdir)) != sorted(files.keys()):
+                    present = sorted(x for x in os.listdir(mdir) if x != "zz_stranger.keep")
+                    if "zz_stranger.keep" in os.listdir(mdir):
+                        with open(os.path.join(mdir, "zz_stranger.keep"), "rb") as f:
+                            if f.read() != b"not ours":
+                                bad = "zz_stranger.keep"
+                    if bad is not None or present != sorted(files.keys()):
                         violation(agg, "multi_files_differ", dict(detail, bad=bad, listed=sorted(os.listdir(mdir))), argv, src)
                         continue
             else:
@@ -272,10 +307,19 @@ def modes_shard(args):
                 if not errs.strip():
                     violation(agg, "failure_without_message", detail, argv, src, mode=mode)
                     continue
-                if use_o and os.path.exists(ofile):
+                if use_o and os.path.exists(ofile) and not preexisting:
                     violation(agg, "failure_creates_output_file", detail, argv, src, mode=mode)
                     continue
+                if use_o and preexisting:
+                    with open(ofile, "rb") as f:
+                        data = f.read()
+                    if data != old_content:
+                        violation(agg, "failure_modifies_output_file", detail, argv, src, mode=mode)
+                        continue
             agg.count("mode:%s%s:%s:rc%d" % (mode, "+" + sub if sub else "", how, rc))
+            agg.add("root_forms", (root, mode))
+            if preexisting and (use_o or mode == "m") and rc == 0:
+                agg.count("overwrote_existing_target")
             if isinstance(v, str) and mode == "S" and rc == 0:
                 agg.add("string_mode_endings", (repr(v[-2:]), ntn))
             agg.nontrivial.add(common.h64(src, " ".join(argv)))
@@ -614,7 +658,7 @@ def run(tier, seed):
     for a in common.pmap(failing_programs_shard, [(seed * 1319 + i, n3 // 16) for i in range(16)]):
         total.merge(a)
     rule = ("real release binary, one child per case: (1) generated values of matching and mismatching type x input "
-            "channel (-e, stdin, file) x mode (plain, -S, -y, -m, -m -S, -m -y, -S -y; strings that begin/end the way the framing does: newlines, ..., ---) x -o x --no-trailing-newline x -s x -t: exit "
+            "channel (-e, stdin, file) x mode (plain, -S, -y, -m, -m -S, -m -y, -S -y; strings that begin/end the way the framing does: newlines, ..., ---; values also written with hidden / forced-visible / inherited / computed fields; output targets that already exist with longer, shorter or empty content; the value as the result of a top-level function with defaults / no parameters / bound by --tla-code / --tla-str) x -o x --no-trailing-newline x -s x -t: exit "
             "status and every output channel against a model of the modes derived from the plain run (string itself, "
             "--- item ... framing, one file per visible field + path list, only the last newline dropped); (2) "
             "ext vars / TLAs in all eight forms with values containing '=', quotes, newlines, non-ASCII, from the "
